@@ -17,27 +17,47 @@ pub fn is_valid(name: &str) -> bool {
     !u.iter().any(|&c| c == b'/' as u16 || c == b'\\' as u16 || c == b':' as u16 || c == b'!' as u16)
 }
 
-/// Simple upper-casing of one UTF-16 code unit, by an explicit table that
-/// covers the harness's name alphabets.  Surrogate halves are left alone
-/// (2.6.4: "each UTF-16 code point ... converted to upper-case").
+/// Simple upper-casing of one UTF-16 code unit: the BMP-wide table generated from CPython's
+/// Unicode database (upper_table.rs).  Surrogate halves are left alone (2.6.4: "each UTF-16 code
+/// point ... converted to upper-case"), and so is every unit without a one-character mapping.
 pub fn upper_unit(c: u16) -> u16 {
-    match c {
-        0x61..=0x7A => c - 0x20,                    // a-z
-        0xE0..=0xF6 | 0xF8..=0xFE => c - 0x20,      // Latin-1 lower
-        0xFF => 0x178,                              // y diaeresis
-        0xB5 => 0x39C,                              // micro sign -> Greek capital mu
-        0x131 => 0x49,                              // dotless i -> I
-        0x17F => 0x53,                              // long s -> S
-        // Latin Extended-A pairs (upper, lower) = (even, odd)
-        0x100..=0x12F | 0x132..=0x137 | 0x14A..=0x177 if c & 1 == 1 => c - 1,
-        // ... and (odd, even)
-        0x139..=0x148 | 0x179..=0x17E if c & 1 == 0 => c - 1,
-        0x3B1..=0x3C1 | 0x3C3..=0x3C9 => c - 0x20,  // Greek alpha..omega
-        0x3C2 => 0x3A3,                             // final sigma
-        0x430..=0x44F => c - 0x20,                  // Cyrillic a..ya
-        0xFF41..=0xFF5A => c - 0x20,                // fullwidth a-z
-        _ => c,
+    match crate::upper_table::PAIRS.binary_search_by_key(&c, |p| p.0) {
+        Ok(i) => crate::upper_table::PAIRS[i].1,
+        Err(_) => c,
     }
+}
+
+/// Is the table's answer for `c` confirmed by a second, independent implementation of the Unicode
+/// case mappings (Rust's std)?  Units on which the two disagree (characters cased only in newer
+/// Unicode versions) and units whose upper-casing is not one BMP character are not judged.
+pub fn trusted_unit(c: u16) -> bool {
+    if (0xD800..=0xDFFF).contains(&c) || crate::upper_table::UNJUDGED.binary_search(&c).is_ok() {
+        return false;
+    }
+    let ch = match char::from_u32(c as u32) {
+        Some(ch) => ch,
+        None => return false,
+    };
+    let mut it = ch.to_uppercase();
+    let first = it.next();
+    if it.next().is_some() {
+        return false;
+    }
+    first.map(|u| u as u32) == Some(upper_unit(c) as u32)
+}
+
+/// Every unit with the same upper-case form as `c` (itself included).
+pub fn case_class(c: u16) -> Vec<u16> {
+    let u = upper_unit(c);
+    let mut v = vec![u];
+    for p in crate::upper_table::PAIRS.iter() {
+        if p.1 == u {
+            v.push(p.0);
+        }
+    }
+    v.sort();
+    v.dedup();
+    v
 }
 
 pub fn upper_units(name: &str) -> Vec<u16> {
@@ -89,18 +109,26 @@ fn map_char_upper(c: char) -> char {
 
 fn map_char_lower(c: char) -> char {
     let v = c as u32;
-    let l = match v {
-        0x41..=0x5A => v + 0x20,
-        0xC0..=0xD6 | 0xD8..=0xDE => v + 0x20,
-        0x178 => 0xFF,
-        0x100..=0x12F | 0x132..=0x137 | 0x14A..=0x177 if v & 1 == 0 => v + 1,
-        0x139..=0x148 | 0x179..=0x17E if v & 1 == 1 => v + 1,
-        0x391..=0x3A1 | 0x3A3..=0x3A9 => v + 0x20,
-        0x410..=0x42F => v + 0x20,
-        0xFF21..=0xFF3A => v + 0x20,
-        _ => v,
-    };
-    char::from_u32(l).unwrap_or(c)
+    if v > 0xFFFF {
+        return c;
+    }
+    let u = upper_unit(v as u16);
+    // the smallest unit other than the upper-case form itself that upper-cases to it
+    static LOWER: std::sync::OnceLock<std::collections::HashMap<u16, u16>> = std::sync::OnceLock::new();
+    let lower = LOWER.get_or_init(|| {
+        let mut m = std::collections::HashMap::new();
+        for p in crate::upper_table::PAIRS.iter() {
+            let e = m.entry(p.1).or_insert(p.0);
+            if p.0 < *e {
+                *e = p.0;
+            }
+        }
+        m
+    });
+    match lower.get(&u) {
+        Some(&l) => char::from_u32(l as u32).unwrap_or(c),
+        None => c,
+    }
 }
 
 /// Path normalisation re-implemented on strings: split on '/', drop empty and
